@@ -130,13 +130,24 @@ Step ==
      ELSE
        LET valid == e.op = "delete" /\ Valid(e, p)
            lv1 == CASE e.op = "append" /\ e.res = "ok" -> lv0 \cup b
-                    [] e.op = "delete" /\ valid        -> lv0 \ rng
+                    [] e.op = "delete" /\ (valid \/ e.dsFault \/ e.afterDsFault) -> lv0 \ rng
                     [] OTHER                           -> lv0
            dl1 == CASE e.op = "append"                 -> dl0 \ b
                     [] e.op = "delete" /\ e.res = "ok" -> dl0 \cup rng
                     [] OTHER                           -> dl0
            isUp == e.op # "stop"
-           F ==    (IF isUp THEN C04(o, lv1) ELSE {})
+           \* a datastore write failure inside DeleteRange is outside the quantifiers of C08/C14 (they range over handler
+           \* failures): the failed attempt is not judged; its retry is judged as a deletion of the original range by the
+           \* clauses that do not depend on the state the failure left behind
+           F == IF e.dsFault THEN If(e.res = "panic", "C08_no_crash")
+                ELSE IF e.afterDsFault
+                THEN    If(e.res = "panic", "C08_no_crash")
+                   \cup If(e.res = "ok" /\ rng \cap (o.R \cup o.RH \cup o.KH \cup o.KI) # {}, "C08_range_not_retrievable_after_success")
+                   \cup If((p.R \ rng) # (o.R \ rng) \/ (p.RH \ rng) # (o.RH \ rng), "C08_outside_untouched")
+                   \cup If(dl1 \cap (o.R \cup o.RH \cup o.KH \cup o.KI) # {}, "C08_deleted_headers_never_reappear")
+                   \cup (IF e.res = "ok" THEN C04(o, lv1 \ rng) ELSE {})
+                ELSE
+                   (IF isUp THEN C04(o, lv1) ELSE {})
               \cup (IF e.op = "delete" THEN C08(e, p, o) \cup C14(e, p, o) ELSE {})
               \cup If(dl1 \cap (o.R \cup o.RH \cup o.KH \cup o.KI) # {}, "C08_deleted_headers_never_reappear")
               \cup If(e.op \in {"append", "sync"} /\ p.head # 0 /\ o.head < p.head, "C04_head_only_moves_forward_without_delete")
